@@ -185,6 +185,22 @@ pub fn c19_resize_smallest() {
     std::mem::forget(tt);
 }
 
+/// a table CREATED with the smallest advertised size (0 MB) is usable as well (new() goes through resize())
+#[kani::proof]
+#[kani::unwind(5)]
+pub fn c19_new_smallest() {
+    let key: u64 = kani::any();
+    #[cfg(test)] println!("REPLAY-CASE {{\"op\":\"new0\",\"key\":{}}}", key);
+    let mut tt: T = TranspositionTable::new(0);
+    let n = tta::len(&tt);
+    assert!(n >= 1 && n == calculate_number_of_entries::<D>(0));
+    assert!(tt.get(&ZobristHash(key)).is_none());
+    tt.insert(&ZobristHash(key), any_data());
+    assert!(tt.get(&ZobristHash(key)).is_some() && tt.occupied == 1);
+    kani::cover!(true);
+    std::mem::forget(tt);
+}
+
 /// the replacement predicate itself against the statement, all pairs of entries
 #[kani::proof]
 pub fn c19_overwrite_policy() {
